@@ -100,4 +100,4 @@ def main():
 
 
 if __name__ == "__main__":
-    main()
+    O.run_main(main)
